@@ -297,6 +297,7 @@ func ruleLockOrder(r *Run, p *Program, rule string) {
 
 // ruleGoroutine: lifecycle of the background worker.
 func ruleGoroutine(r *Run, p *Program, rule string) {
+	cancelField := "pogreb.DB.cancelBgWorker" // the field holding the worker's cancel function (found at the go statement)
 	n := 0
 	for _, f := range p.ModuleFuncs("") {
 		if f.Pkg != p.MainS {
@@ -318,7 +319,17 @@ func ruleGoroutine(r *Run, p *Program, rule string) {
 			r.check(added, rule, construct+":wg-add", pos, "WaitGroup.Add precedes the go statement", "a goroutine is started without WaitGroup.Add before it: Close cannot wait for it")
 			stored := mustPrecede(f, g, func(x ssa.Instruction) bool {
 				st, ok := x.(*ssa.Store)
-				return ok && fieldName(st.Addr) == "pogreb.DB.cancelBgWorker"
+				if !ok || fieldName(st.Addr) == "" {
+					return false
+				}
+				// the cancel function of context.WithCancel stored into a struct field (wherever that field lives)
+				for _, s := range sources(st.Val) {
+					if c, idx := callResult(s); c != nil && idx == 1 && c.Call.StaticCallee() != nil && c.Call.StaticCallee().String() == "context.WithCancel" {
+						cancelField = fieldName(st.Addr)
+						return true
+					}
+				}
+				return false
 			})
 			r.check(stored, rule, construct+":cancel-stored", pos, "the cancel function is stored in DB.cancelBgWorker before the goroutine starts", "the goroutine is started before its cancel function is stored: Close may not be able to stop it")
 			body, _, _ := resolveFuncValue(nil, g.Call.Value, 0)
@@ -386,37 +397,63 @@ func ruleGoroutine(r *Run, p *Program, rule string) {
 		})
 	}
 	r.universe(rule, n, 1)
-	// Close: cancel, then Wait, then Lock
+	// Close: cancel, then Wait, then Lock (the cancel and the wait may sit in a helper such as a stop() method)
 	if f := p.Fn("(*pogreb.DB).Close"); r.anchor(rule, "(*pogreb.DB).Close", f != nil) {
 		r.fn(funcKey(f))
-		var wait, lock, cancel ssa.Instruction
-		instrsOf(f, func(in ssa.Instruction) {
-			c, ok := in.(*ssa.Call)
+		rootCtx := &Ctx{Fn: f}
+		all, _ := allNodesFrom(p, rootCtx)
+		var wait, lock, cancel []Node
+		for nd := range all.Reached {
+			c, ok := nd.In.(*ssa.Call)
 			if !ok {
-				return
+				continue
 			}
 			switch {
 			case calleeKey(&c.Call) == "(*sync.WaitGroup).Wait":
-				wait = c
-			case func() bool { l, op := lockOp(&c.Call); return l == "mu" && op == "Lock" }():
-				lock = c
-			case isFieldLoad(c.Call.Value, "pogreb.DB.cancelBgWorker"):
-				cancel = c
+				wait = append(wait, nd)
+			case func() bool { l, op := lockOp(&c.Call); return l == "mu" && op == "Lock" }() && nd.Ctx.Parent == nil:
+				lock = append(lock, nd)
+			case isFieldLoad(c.Call.Value, cancelField):
+				cancel = append(cancel, nd)
 			}
-		})
-		if r.anchor(rule, "cancel call, WaitGroup.Wait and DB.mu.Lock in Close", wait != nil && lock != nil && cancel != nil) {
-			w := &Walk{Fn: f, Stop: func(in ssa.Instruction) bool { return in == cancel },
-				SkipEdge: func(b *ssa.BasicBlock, k int) bool {
+		}
+		if r.anchor(rule, "cancel call, WaitGroup.Wait and DB.mu.Lock in Close", len(wait) > 0 && len(lock) > 0 && len(cancel) > 0) {
+			isIn := func(set []Node) func(n Node) bool {
+				return func(n Node) bool {
+					for _, x := range set {
+						if x == n {
+							return true
+						}
+					}
+					return false
+				}
+			}
+			w := &IPWalk{P: p, Visit: isIn(cancel),
+				SkipEdge: func(ctx *Ctx, b *ssa.BasicBlock, k int) bool {
 					c := edgeCond(b, k)
 					if c == nil {
 						return false
 					}
 					eq, ok := c.holdsEq()
-					return ok && eq && ((isNilConst(c.Y) && isFieldLoad(c.X, "pogreb.DB.cancelBgWorker")) || (isNilConst(c.X) && isFieldLoad(c.Y, "pogreb.DB.cancelBgWorker")))
+					return ok && eq && ((isNilConst(c.Y) && isFieldLoad(c.X, cancelField)) || (isNilConst(c.X) && isFieldLoad(c.Y, cancelField)))
 				}}
-			w.From()
-			r.check(!w.Visited[wait], rule, "(*pogreb.DB).Close:cancel-before-wait", p.Pos(wait.Pos()), "Close cancels the worker (when there is one) before waiting for it", "Close can wait for the background worker without having cancelled it: deadlock")
-			r.check(mustPrecedeInstr(f, lock, wait), rule, "(*pogreb.DB).Close:wait-before-lock", p.Pos(lock.Pos()), "Close waits for the worker before taking DB.mu", "Close takes DB.mu before the background worker has stopped: the worker's Sync/Compact then blocks forever on DB.mu while Close waits for it, or runs on closed files")
+			w.Run(rootCtx, nil)
+			early := false
+			for _, x := range wait {
+				if w.Reached[x] {
+					early = true
+				}
+			}
+			r.check(!early, rule, "(*pogreb.DB).Close:cancel-before-wait", p.Pos(instrPos(wait[0].In)), "Close cancels the worker (when there is one) before waiting for it", "Close can wait for the background worker without having cancelled it: deadlock")
+			w2 := &IPWalk{P: p, Visit: isIn(wait)}
+			w2.Run(rootCtx, nil)
+			locked := false
+			for _, x := range lock {
+				if w2.Reached[x] {
+					locked = true
+				}
+			}
+			r.check(!locked, rule, "(*pogreb.DB).Close:wait-before-lock", p.Pos(instrPos(lock[0].In)), "Close waits for the worker before taking DB.mu", "Close takes DB.mu before the background worker has stopped: the worker's Sync/Compact then blocks forever on DB.mu while Close waits for it, or runs on closed files")
 		}
 	}
 }
